@@ -26,6 +26,8 @@ def norm_case(draw):
     return {"g": g, "k": k, "seed": draw(st.integers(0, 2**31)),
             "exps": draw(st.lists(st.integers(-6, 150), min_size=1, max_size=5)),
             "zero_frac": draw(st.sampled_from([0.0, 0.2, 0.5])),
+            # non-zero lengths a decade or more below the library's absolute 1e-8 threshold
+            "tiny_frac": draw(st.sampled_from([0.0, 0.0, 0.25])),
             "spec": draw(st.sampled_from(["const", "array", "scalar-array", "callable", "array-with-zeros", "int-const"])),
             "target_exp": draw(st.integers(-6, 6)), "via": draw(st.sampled_from(["init", "setter"])),
             "warm": draw(st.sampled_from(["none", "norm", "orientation", "valid-norm"])),
@@ -44,6 +46,9 @@ def make_vectors(case, seed_shift=0):
     if case.get("near_target") and seed_shift == 0:
         # all lengths within 1e-6 relative of the constant that will be requested as norm
         lens = 1.5 * 10.0 ** case["target_exp"] * (1 + rng.uniform(-1e-6, 1e-6, size=n))
+    if case.get("tiny_frac") and not (case.get("near_target") and seed_shift == 0):
+        tiny = rng.random(n) < case["tiny_frac"]
+        lens[tiny] = 10.0 ** rng.uniform(-12, -9.05, size=n)[tiny]
     zero = rng.random(n) < case["zero_frac"]
     lens[zero] = 0.0
     return dirs * lens[..., np.newaxis], lens, dirs
@@ -124,15 +129,18 @@ def check_norm(case):
         # ---- orientation
         o = f.orientation
         ol = np.linalg.norm(o.array, axis=-1)
-        nz = lens > 0
+        nz = lens > 1e-7  # generated lengths are 0, <= 1e-9 ("count as zero there") or >= 1e-6
+        if (lens > 0).any() and (~nz & (lens > 0)).any():
+            tag("below-threshold-lengths")
         if np.any(o.array[~nz] != 0):
-            raise Violation("orientation-zero-cells")
+            i = tuple(np.argwhere(~nz & np.any(o.array != 0, axis=-1))[0])
+            raise Violation("orientation-zero-cells", f"cell {i} of length {lens[i]!r} has orientation {o.array[i]}")
         if nz.any() and np.any(np.abs(ol[nz] - 1) > 1e-12):
             i = tuple(np.argwhere(nz & (np.abs(ol - 1) > 1e-12))[0])
             raise Violation("orientation-not-unit", f"cell {i}: |orientation| = {ol[i]!r} for a vector of length {lens[i]!r}")
         require(np.array_equal(o.valid, mask) and o.nvdim == k, "orientation-metadata")
         rec = (o * nf).array
-        if not np.allclose(rec, vec, rtol=1e-12, atol=0):
+        if not np.allclose(rec[nz], vec[nz], rtol=1e-12, atol=0) or np.any(rec[~nz] != 0):
             raise Violation("orientation-times-norm", "orientation * norm does not reproduce the field")
         require(np.array_equal(f.array, vec), "getter-changed-values")
         f.norm = spec
@@ -169,7 +177,7 @@ def check_inplace_write(case):
         raise Violation("norm-stale-after-inplace-write", "field.norm is not the length of the current values")
     o = f.orientation
     ol = np.linalg.norm(o.array, axis=-1)
-    nz = lens2 > 0
+    nz = lens2 > 1e-7
     if (nz.any() and np.any(np.abs(ol[nz] - 1) > 1e-12)) or np.any(o.array[~nz] != 0):
         raise Violation("orientation-stale-after-inplace-write")
     spec, target = norm_spec(case, lat, n)
